@@ -339,7 +339,30 @@ func (x *Exec) applyContract(ct *Contract, key string, callee *ssa.Function, sig
 		}
 		x.sc.Assume(reach, t)
 	}
+	// call probes: named model values a replay harness can use (first call site wins the bare name)
+	for _, pc := range ct.Probes {
+		v, err := post.evalRV(pc.E)
+		if err != nil || len(v.L) != 1 {
+			continue
+		}
+		name := pc.Label
+		n := 1
+		for x.hasProbe(name) {
+			n++
+			name = fmt.Sprintf("%s_%d", pc.Label, n)
+		}
+		x.entryProbes = append(x.entryProbes, Probe{Name: name, Term: x.sc.Define("probe", sortOfVal(x, v), v.L[0])})
+	}
 	return res, nil
+}
+
+func (x *Exec) hasProbe(name string) bool {
+	for _, p := range x.entryProbes {
+		if p.Name == name {
+			return true
+		}
+	}
+	return false
 }
 
 func shortName(s string) string {
